@@ -1,4 +1,5 @@
 import RimeModel.Session.Context
+import RimeModel.Session.Recog
 import RimeModel.Gen.Keymaps
 /-! The processors of the modelled chain: Speller, Selector, Navigator, Editor (express / fluid)
 and KeyBindingProcessor's fallback logic (speller.cc, selector.cc, navigator.cc, editor.cc,
@@ -785,6 +786,22 @@ def kbProcess (reent : Key → Ctx → Ctx × Bool) (env : Env) (k : Key) (c : C
       | none => (r.1, .noop)
       | some b => (kbPerform reent env b.action r.1, .accepted)
 
+/-! ### Recognizer (recognizer.cc)
+
+`Recognizer::ProcessKeyEvent`: a no-op without patterns, for keys with Control / Alt / Super and for releases (Shift and
+Caps Lock do not matter).  Accepted characters: `ch > 0x20 && ch < 0x80` — which includes 0x7f — and the space when
+`use_space` is on.  The patterns are matched against the raw input plus the incoming character (appended at the END of the
+input, wherever the caret is) with the CURRENT composition's segments; on a match the character is pushed (at the caret)
+and the key is accepted. -/
+
+def recognizerProcess (env : Env) (k : Key) (c : Ctx) : Ctx × PResult :=
+  if env.recPatterns.isEmpty || k.ctrl || k.alt || k.super || k.release then (c, .noop)
+  else if (env.recUseSpace && k.code = 0x20) || (k.code > 0x20 && k.code < 0x80) then
+    match getMatch env.recPatterns (c.input ++ [k.byte]) c.comp with
+    | some _ => (Ctx.pushInput env c k.byte, .accepted)
+    | none => (c, .noop)
+  else (c, .noop)
+
 /-- the processors as they act inside a redirection: `redirecting_` is a private member of KeyBinder, set exactly
 around the loop of PerformKeyBinding, and KeyBinder::ProcessKeyEvent returns kNoop when it is set before looking at
 anything else (not even `last_key_` moves) — so the nested chain is the chain with the key binder a no-op, and the
@@ -800,6 +817,7 @@ def procRunInner (env : Env) (p : Proc) (k : Key) (c : Ctx) : Ctx × PResult :=
   | .punctuator => punctProcess env k c
   | .keyBinder => (c, .noop)
   | .asciiComposer => asciiProcess env k c
+  | .recognizer => recognizerProcess env k c
 
 def chainInner (env : Env) (k : Key) : List Proc → Ctx → Ctx × Bool
   | [], c => (c, false)
@@ -829,6 +847,7 @@ def procRun (env : Env) (p : Proc) (k : Key) (c : Ctx) : Ctx × PResult :=
   | .punctuator => punctProcess env k c
   | .keyBinder => kbProcess (processKeyNested env) env k c
   | .asciiComposer => asciiProcess env k c
+  | .recognizer => recognizerProcess env k c
 
 /-- returns the new state and whether the key was handled -/
 def chain (env : Env) (k : Key) : List Proc → Ctx → Ctx × Bool
